@@ -92,6 +92,24 @@ CLAIMS = {
         technique='Lean 4 proof (codec round trips from the core UTF-8 lemmas, induction over the piece list) + '
                   'model/implementation correspondence + bytes-vs-text oracle',
         ref='DESIGN.md §5 C19'),
+    'C10': dict(
+        text='Lean 4 theorems about dtml-in of the interpreter model (inLoop / inIter = renderwob, SeqVars + seqLookup = '
+             'sequence_variables.__getitem__ for the documented names), for ALL sequences, bodies, namespaces and fuel: '
+             'inLoop_step, in_once_per_element (a completed loop rendered the body exactly once per element, in order), '
+             'position_flags (index i; start iff first; end iff last), svAt_svAt, seqvar_values (index, number, letter, Letter, '
+             'even, odd, start, end, length, item), seqvar_roman + roman_denotes / roman_value (fromRoman(toRoman n) = n for all '
+             'n < 5000, decided by kernel evaluation over the whole range), item_and_key, lookup_sequence_name, '
+             'lookup_sequence_var / sequence_var_attr / sequence_var_key, first_last_spec / lookup_first / lookup_last, '
+             'prefix_alias, else_iff_empty, item_pushed, in_scope_ends (C08). Correspondence: unbatched loops over lists/tuples '
+             'of objects, mappings, 2-tuples, strings, numbers printing every variable, and nested loops with different '
+             'prefixes; oracle: documented values computed from element positions, also for iterators / generators / lazy '
+             'sequences and sort / reverse / batch combinations',
+        note='Trusted: Lean kernel; interpreter model validated (not verified) against the real classes. Partial: theorems cover '
+             'the unbatched renderer; batched windows are C11; sort/reverse/batch combinations and lazy inputs are oracle-only; '
+             'roman numerals modelled for positions < 5000',
+        technique='Lean 4 proof (induction on the loop, case analysis of the variable lookup, kernel evaluation over the full '
+                  'finite numeral range) + model/implementation correspondence + independent value oracle',
+        ref='DESIGN.md §5 C10'),
     'C08': dict(
         text='Lean 4 theorems about the interpreter model (Render.lean: namespace stack, lookups with auto-call, '
              'expressions, every block tag, sub-template calls, dtml-return, exceptions, fault plans as part of the '
